@@ -306,8 +306,32 @@ fn conc_case(rec: &mut Recorder, m0: &Map, progs: &[Vec<Op>], sched: &[usize]) -
 /// writer keeps besides the published snapshot (a cached length, an index) has to agree with it once nobody writes.
 fn free_case(rec: &mut Recorder, seed: u64, nt: usize, nops: usize) -> bool {
     verif_harness::journal(&[format!("free|{seed}|{nt}|{nops}")]);
-    let map: Arc<FrimMap<u64, u64>> = Arc::new(FrimMap::default());
-    let barrier = Arc::new(std::sync::Barrier::new(nt));
+    // every value names its key (value / 1_000_000), and key 9 is there from before the first write to after the last
+    // one (no writer removes it; a whole-map replace carries it): a lookup running next to the writers may see any
+    // version of its key, never another key's value, and never misses key 9
+    const M: u64 = 1_000_000;
+    let map: Arc<FrimMap<u64, u64>> = Arc::new(build(&vec![(9, 9 * M)]));
+    let barrier = Arc::new(std::sync::Barrier::new(nt + 2));
+    let done = Arc::new(std::sync::atomic::AtomicBool::new(false));
+    let readers: Vec<_> = (0..2u64).map(|t| {
+        let (map, barrier, done) = (map.clone(), barrier.clone(), done.clone());
+        std::thread::spawn(move || {
+            let mut r = Rng::new(seed.wrapping_mul(77).wrapping_add(t));
+            let (mut foreign, mut missed, mut n) = (0u64, 0u64, 0u64);
+            barrier.wait();
+            while !done.load(std::sync::atomic::Ordering::SeqCst) || n < 50 {
+                let k = if r.chance(1, 3) { 9 } else { r.below(6) };
+                match map.get(&k) {
+                    Some(v) if v / M != k => foreign += 1,
+                    None if k == 9 => missed += 1,
+                    _ => {}
+                }
+                if k == 9 && !map.contains_key(&9) { missed += 1; }
+                n += 1;
+            }
+            (foreign, missed, n)
+        })
+    }).collect();
     let hs: Vec<_> = (0..nt).map(|t| {
         let (map, barrier) = (map.clone(), barrier.clone());
         std::thread::spawn(move || {
@@ -316,22 +340,30 @@ fn free_case(rec: &mut Recorder, seed: u64, nt: usize, nops: usize) -> bool {
             for i in 0..nops {
                 let k = r.below(6);
                 match r.below(10) {
-                    0..=5 => { map.insert(k, (t * 1000 + i) as u64); }
+                    0..=5 => { map.insert(k, k * M + (t * 1000 + i) as u64); }
                     6 | 7 => { map.remove(&k); }
                     8 => { map.retain(move |kk, _| *kk != k); }
-                    _ => { map.replace(build(&vec![(k, 7), ((k + 1) % 6, 8)])); }
+                    // key 9 at the front, in the middle or at the end of the new map
+                    _ => { let k2 = (k + 1) % 6; let mut v = vec![(k, k * M + 7), (k2, k2 * M + 8)]; v.insert(r.below(3) as usize, (9, 9 * M + i as u64)); map.replace(build(&v)); }
                 }
             }
         })
     }).collect();
     for h in hs { h.join().expect("free thread"); }
+    done.store(true, std::sync::atomic::Ordering::SeqCst);
+    let (mut foreign, mut missed, mut nreads) = (0u64, 0u64, 0u64);
+    for h in readers { let (f, m, n) = h.join().expect("free reader"); foreign += f; missed += m; nreads += n; }
+    rec.bump_by("free.reads", nreads);
     let snap = content(&map);
     let (n, e) = (map.len(), map.is_empty());
     let mut keys: Vec<u64> = snap.iter().map(|x| x.0).collect(); keys.sort(); let nk = keys.len(); keys.dedup();
-    let gets_ok = (0..6).all(|k| map.get(&k) == snap.iter().find(|x| x.0 == k).map(|x| x.1));
-    let imp = format!("rest len-agrees={} empty-agrees={} gets-agree={} keys-unique={}", n == snap.len(), e == snap.is_empty(), gets_ok, keys.len() == nk);
-    let ok = n == snap.len() && e == snap.is_empty() && gets_ok && keys.len() == nk;
-    let orc = if ok { "ok".to_string() } else { format!("fail rest:views-disagree at rest after {nt} threads x {nops} writes: len()={n} is_empty()={e} iterated={} entries, gets agree={gets_ok}, keys unique={}", snap.len(), keys.len() == nk) };
+    let gets_ok = (0..10).all(|k| map.get(&k) == snap.iter().find(|x| x.0 == k).map(|x| x.1));
+    let imp = format!("rest len-agrees={} empty-agrees={} gets-agree={} keys-unique={} reads-own-key={} pinned-key-seen={}", n == snap.len(), e == snap.is_empty(), gets_ok, keys.len() == nk, foreign == 0, missed == 0);
+    let rest_ok = n == snap.len() && e == snap.is_empty() && gets_ok && keys.len() == nk;
+    let ok = rest_ok && foreign == 0 && missed == 0;
+    let orc = if ok { "ok".to_string() }
+        else if !rest_ok { format!("fail rest:views-disagree at rest after {nt} threads x {nops} writes: len()={n} is_empty()={e} iterated={} entries, gets agree={gets_ok}, keys unique={}", snap.len(), keys.len() == nk) }
+        else { format!("fail free:lookup-not-atomic next to {nt} writers x {nops} writes: {foreign} get(k) returned another key's value, {missed} lookups missed a key that was present throughout ({nreads} lookups)") };
     rec.bump("free.cases");
     rec.case(format!("free|{seed}|{nt}|{nops}"), imp, orc, nt >= 2);
     ok
